@@ -67,9 +67,17 @@ impl Check for C10 {
         let seg = w.add_segment(10 * US, 0);
         spec.ports[0].segment = Some(seg);
         w.attach_script(seg, 0);
-        if ch.chance(S_CFG, 1, 3) {
-            w.hostf.tx_ts_late_ppm = 200_000;
-            w.hostf.tx_ts_late_max = 3 * MS;
+        match ch.choose(S_CFG, 4) {
+            1 => {
+                w.hostf.tx_ts_late_ppm = 200_000;
+                w.hostf.tx_ts_late_max = 3 * MS;
+            }
+            2 => {
+                // a timestamp may be reported after the next Sync has already left
+                w.hostf.tx_ts_late_ppm = 150_000;
+                w.hostf.tx_ts_late_max = HostPort::interval_units(log) * 5 / 2;
+            }
+            _ => {}
         }
         w.add_node(spec.clone(), ch);
         let own = Pid::new(OWN, 1);
